@@ -20,11 +20,11 @@ class C13(Prop):
     ]
 
     def consts(self, tier):
-        return {"Conn": {"c1", "c2"}, "CursUsed": {1, 2}}
+        return {"Conn": {"c1", "c2"}, "CursUsed": {1, 2}, "ThUsed": {"main", "other"}, "NoiseUsed": {"withblock", "cursorctx", "setvar", "usesame"}}
 
     def model_checks(self, tier):
         big = tier == "thorough"
-        c = {"Conn": {"c1", "c2"}, "CursUsed": {1}, "Devs": set(), "Depth": 16 if big else 12, "MaxFails": 99, "SampleOneIn": 1}
+        c = {"Conn": {"c1", "c2"}, "CursUsed": {1}, "ThUsed": {"main"}, "NoiseUsed": {"withblock"}, "Devs": set(), "Depth": 16 if big else 12, "MaxFails": 99, "SampleOneIn": 1}
         return [
             dict(name="mc_ideal", consts=c, invariants=["StepInv"], constraint="Bound", view="ViewSt", timeout=1500),
             dict(name="mc_snapshot", consts=dict(c, Devs={"C13.reader_transaction_snapshot"}, Depth=6),
@@ -33,12 +33,17 @@ class C13(Prop):
 
     def generations(self, tier, seed):
         big = tier == "thorough"
-        base = {"Conn": {"c1", "c2"}, "CursUsed": {1, 2}, "Devs": set(), "MaxFails": 2, "SampleOneIn": 1}
+        base = {"Conn": {"c1", "c2"}, "CursUsed": {1, 2}, "ThUsed": {"main"}, "NoiseUsed": {"withblock", "setvar"}, "Devs": set(), "MaxFails": 2, "SampleOneIn": 1}
+        allnoise = {"withblock", "cursorctx", "setvar", "usesame"}
         return [
             dict(name="edges", mode="edges", sample=30000 if big else 3000, consts=dict(base, CursUsed={1}, MaxFails=99, SampleOneIn=1, Depth=9)),
             dict(name="paths", mode="paths", sample=20000 if big else 3000, consts=dict(base, CursUsed={1}, MaxFails=1, SampleOneIn=1, Depth=5)),
-            dict(name="walks", mode="walks", depth=14, num=5000 if big else 800, consts=dict(base, Depth=14)),
-        ] + ([dict(name="walks_long", mode="walks", depth=40, num=1500, seed_offset=2, consts=dict(base, MaxFails=5, SampleOneIn=1, Depth=40))] if big else [])
+            # calls made from another thread than the one that opened the connection; every kind of neutral call in between
+            dict(name="edges_threads", mode="edges", sample=20000 if big else 2000,
+                 consts=dict(base, CursUsed={1}, ThUsed={"main", "other"}, NoiseUsed=allnoise, MaxFails=1, SampleOneIn=1, Depth=6)),
+            dict(name="walks", mode="walks", depth=14, num=5000 if big else 800,
+                 consts=dict(base, ThUsed={"main", "other"}, NoiseUsed=allnoise, Depth=14)),
+        ] + ([dict(name="walks_long", mode="walks", depth=40, num=1500, seed_offset=2, consts=dict(base, ThUsed={"main", "other"}, NoiseUsed=allnoise, MaxFails=5, SampleOneIn=1, Depth=40))] if big else [])
 
     def nontrivial(self, ops):
         return any(o["k"] == "begin" for o in ops) and len({o["c"] for o in ops}) == 2
@@ -55,11 +60,28 @@ class C13(Prop):
         longcur = {c: conns[c].cursor() for c in conns}
         longcur["c1"].execute("create table t (v int)")
         ev = []
-        for op in ops:
+        import threading
+
+        def one(op):
             k, c = op["k"], op["c"]
             cur = longcur[c] if op["u"] == 1 else conns[c].cursor()
             obs = {"res": "?", "n": -1, "seen": []}
             try:
+                if k == "noise":
+                    w = op["w"]
+                    if w == "withblock":
+                        with conns[c]:
+                            pass
+                    elif w == "cursorctx":
+                        with conns[c].cursor() as c2:
+                            c2.execute("select 1")
+                            c2.fetchall()
+                    elif w == "setvar":
+                        cur.execute("set vt_noise = 1")
+                    else:
+                        cur.execute(f"use schema {sc}")
+                    obs["res"] = "ok"
+                    return obs
                 if k in ("commit", "rollback") and op["api"] == "conn":
                     getattr(conns[c], k)()
                     obs["res"] = "api"
@@ -85,6 +107,18 @@ class C13(Prop):
                         obs["res"] = "unexpected-success"
             except Exception:
                 obs["res"] = "err"
+            return obs
+
+        for op in ops:
+            if op.get("th", "main") == "other":
+                # the same call made by another thread, strictly sequentially (start, join)
+                box = []
+                t = threading.Thread(target=lambda: box.append(one(op)))
+                t.start()
+                t.join()
+                obs = box[0] if box else {"res": "threaddied", "n": -1, "seen": []}
+            else:
+                obs = one(op)
             ev.append({"op": op, "obs": obs})
         for c in conns.values():
             try:
